@@ -185,7 +185,15 @@ func HarnessC09AllocateTokenBucket() {
 // after an error reply it is at least the local limit; an accepting reply installs the server's value clamped to
 // [reserve, global].
 // verif:bounds 0 <= local <= global <= 2^30; k = 1..3 replies, each symbolic over {accept, refuse, error, RequestIDTooOld} with arbitrary int32 limit; request times increasing (quick) / arbitrary int64 (thorough); meter readings arbitrary in [0, global]
-func HarnessC09CountMaxInflight() {
+func HarnessC09CountMaxInflight() { c09CountMaxInflight(false) }
+
+// HarnessC09CountMaxInflightSchemaShrinks: the same wrapper when the schema is reconfigured to a smaller global limit
+// between two replies (the server then answers the next status report with the new number): whatever was granted or
+// observed before - also during an outage - the new limit binds at once and keeps binding.
+// verif:bounds 0 <= local <= global' <= global <= 2^30 symbolic; reply, shrink, reply; replies symbolic over {accept, refuse, error, RequestIDTooOld} with arbitrary int32 limit; meter readings arbitrary within the limit enforced BEFORE the shrink
+func HarnessC09CountMaxInflightSchemaShrinks() { c09CountMaxInflight(true) }
+
+func c09CountMaxInflight(shrinks bool) {
 	local := nondetInt32("local")
 	global := nondetInt32("global")
 	vassume(0 <= local && local <= global && global <= 1<<30)
@@ -206,7 +214,22 @@ func HarnessC09CountMaxInflight() {
 	inst, _ := c09InstalledMax(f.remote)
 	vassert(inst >= 0 && inst <= global, "C09/count-initial-limit-outside-global")
 	k := nondetRange("replies", 1, 3)
+	if shrinks {
+		k = 2
+	}
 	for i := 0; i < k; i++ {
+		// the schema is reconfigured to a smaller global limit between the two replies
+		if shrinks && i == 1 {
+			ng := nondetInt32("newGlobal", i)
+			vassume(local <= ng && ng <= global)
+			global = ng
+			f.remote.Sync(proxyv1alpha1.RateLimitItemConfiguration{Name: "fc", Strategy: proxyv1alpha1.GlobalCountLimit,
+				LimitItemDetail: proxyv1alpha1.LimitItemDetail{MaxRequestsInflight: &proxyv1alpha1.MaxRequestsInflightFlowControlSchema{Max: global}}})
+			w2, same := f.remote.GlobalCounterFlowControl.(*maxInflightWrapper)
+			vassert(same && w2 == w, "C09/count-wrapper-replaced-by-a-resize")
+			instS, okS := c09InstalledMax(f.remote)
+			vassert(okS && instS >= 0 && instS <= global, "C09/count-limit-above-the-shrunk-global-limit")
+		}
 		res := &proxyv1alpha1.RateLimitAcquireResult{FlowControl: "fc", Accept: nondetBool("accept", i), Limit: nondetInt32("limit", i)}
 		switch nondetRange("errkind", 0, 2, i) {
 		case 1:
